@@ -27,7 +27,7 @@ def run(ck):
     rnd = random.Random(ck.seed)
     single = cases(ck, "Wire_single.cfg", "every message shape alone x chunking")
     pair = cases(ck, "Wire_pair.cfg", "pairs over the reduced shape set x chunking")
-    if len(single) < 3000 or len(pair) < 7000:
+    if len(single) < 3500 or len(pair) < 7000:
         raise Infra("case generation produced %d/%d" % (len(single), len(pair)))
     total = len(single) + len(pair)
     rnd.shuffle(pair)
